@@ -998,6 +998,22 @@ fn trace_case(opts: &Opts, case: &Case, entry: &Entry, sink: &mut Sink) {
     }
 }
 
+/// run this shard binary again as `--one <case>` with the input on stdin
+fn fresh_process_result(case_id: usize, input: &str) -> Option<Real> {
+    use std::io::Write;
+    use std::process::{Command, Stdio};
+    let exe = std::env::current_exe().ok()?;
+    let mut child = Command::new(exe).arg("--one").arg(case_id.to_string()).stdin(Stdio::piped()).stdout(Stdio::piped()).stderr(Stdio::null()).spawn().ok()?;
+    child.stdin.take()?.write_all(input.as_bytes()).ok()?;
+    let out = child.wait_with_output().ok()?;
+    let v: serde_json::Value = serde_json::from_str(String::from_utf8_lossy(&out.stdout).lines().next()?).ok()?;
+    Some(match v["k"].as_str()? {
+        "ok" => Real::Ok(v["s"].as_str()?.to_string()),
+        "err" => Real::Err { pos: v["pos"].as_u64()? as usize, spec: v["spec"].as_str()?.to_string() },
+        _ => Real::Panic(v["m"].as_str().unwrap_or("").to_string()),
+    })
+}
+
 fn max_len_of(inputs: &[String]) -> usize {
     inputs.iter().map(|s| s.chars().count()).max().unwrap_or(0)
 }
@@ -1011,7 +1027,7 @@ fn history_case(opts: &Opts, case: &Case, entry: &Entry, sink: &mut Sink) {
     let mut expect: Vec<Option<(bool, String)>> = Vec::new();
     for input in &inputs {
         let r = reference(case, input, &answers, Options::pure());
-        expect.push(if r.gave_up {
+        expect.push(if r.gave_up || case.note.contains("no-reference") {
             None
         } else {
             Some(match &r.result {
@@ -1039,6 +1055,29 @@ fn history_case(opts: &Opts, case: &Case, entry: &Entry, sink: &mut Sink) {
                 .unwrap_or(Real::Panic("thread".into()))
         })
         .collect();
+    // third oracle: the same input parsed in a fresh PROCESS (no history at all, not even in statics)
+    for (i, inp) in inputs.iter().enumerate() {
+        match fresh_process_result(case.id, inp) {
+            Some(r) => {
+                sink.bump("fresh_process_baselines", 1);
+                if r != baseline[i] {
+                    sink.violation(
+                        case,
+                        inp,
+                        "result-depends-on-history",
+                        format!("{} (parsed alone in a fresh process)", r.short()),
+                        baseline[i].short(),
+                        json!({"history": inputs[..i].to_vec(), "position_in_history": i, "mode": "fresh thread after the listed inputs were parsed in this process"}),
+                    );
+                    return;
+                }
+            }
+            None => {
+                sink.violation(case, inp, "fresh-process-parse-died", baseline[i].short(), "the process parsing this input alone gave no result".into(), json!({}));
+                return;
+            }
+        }
+    }
     let agrees = |real: &Real, exp: &Option<(bool, String)>| -> bool {
         match (real, exp) {
             (_, None) => true,
